@@ -273,6 +273,62 @@ def bounded(tier, seed):
                                 return 'linear profile along %s of %s not reproduced' % (d, vk)
                     return None
                 run.case('C17:interpDimension', (spec['seed'], d, nx_.tolist()), t)
+    # integer-typed variables: the weighted sum is formed in floating point and stored once; a linear profile whose interpolated values
+    # are whole numbers comes back exactly, a constant field stays constant
+    for dt in ('i2', 'i4', 'i8'):
+        for pos in (0, 1):
+            def t_int(dt=dt, pos=pos):
+                f = P.PseudoNetCDFFile()
+                f.createDimension('z', 5)
+                f.createDimension('x', 3)
+                z = np.arange(5.)
+                f.createVariable('z', 'd', ('z',), values=z)
+                dims = ('z', 'x') if pos == 0 else ('x', 'z')
+                prof = (1 + 2 * np.arange(5)).astype(dt)           # 1, 3, 5, 7, 9
+                a = prof[:, None] + np.zeros((5, 3), dt) if pos == 0 else prof[None, :] + np.zeros((3, 5), dt)
+                f.createVariable('lin', dt, dims, values=a.astype(dt))
+                f.createVariable('const', dt, dims, values=np.full(a.shape, 7, dt))
+                g = f.interpDimension('z', (z[1:] + z[:-1]) / 2)
+                want = np.array([2, 4, 6, 8])
+                got = np.asarray(g.variables['lin'][...])
+                got1 = got[:, 0] if pos == 0 else got[0, :]
+                if got1.shape != want.shape or not np.array_equal(got1, want):
+                    return 'integer (%s) linear profile 1,3,5,7,9 at the midpoints: %r expected %r' % (dt, got1.tolist(), want.tolist())
+                c = np.asarray(g.variables['const'][...])
+                if not (c == 7).all():
+                    return 'integer (%s) constant field 7 became %r' % (dt, np.unique(c).tolist())
+                return None
+            run.case('C17:interpDimension of integer variables', (dt, pos), t_int)
+    # interpvars (the functional form: weights (new, old) from getinterpweights applied along a named dimension of every variable),
+    # float and integer variables, the dimension first or last
+    from PseudoNetCDF.core._functions import interpvars
+    from PseudoNetCDF.coordutil import getinterpweights as giw
+    for dt in ('f', 'd', 'i2', 'i4', 'i8'):
+        for pos in (0, 1):
+            def t_iv(dt=dt, pos=pos):
+                f = P.PseudoNetCDFFile()
+                f.createDimension('z', 5)
+                f.createDimension('x', 3)
+                z = np.arange(5.)
+                dims = ('z', 'x') if pos == 0 else ('x', 'z')
+                prof = (1 + 2 * np.arange(5)).astype(dt)
+                a = prof[:, None] + np.zeros((5, 3), dt) if pos == 0 else prof[None, :] + np.zeros((3, 5), dt)
+                f.createVariable('lin', dt, dims, values=a.astype(dt))
+                f.createVariable('const', dt, dims, values=np.full(a.shape, 7, dt))
+                f.createVariable('other', dt, ('x',), values=np.arange(3).astype(dt))
+                w = giw(z, (z[1:] + z[:-1]) / 2)
+                g = interpvars(f, w.T, 'z')
+                want = np.array([2, 4, 6, 8])
+                got = np.asarray(g.variables['lin'][...])
+                got1 = got[:, 0] if pos == 0 else got[0, :]
+                if got1.shape != want.shape or not np.allclose(got1, want):
+                    return 'interpvars, %s variable: linear profile 1,3,5,7,9 at the midpoints gives %r, expected %r' % (dt, got1.tolist(), want.tolist())
+                if not np.allclose(np.asarray(g.variables['const'][...]), 7):
+                    return 'interpvars, %s variable: constant field 7 became %r' % (dt, np.unique(np.asarray(g.variables['const'][...])).tolist())
+                if len(g.dimensions['z']) != 4:
+                    return 'interpvars: dimension z has length %d, expected 4' % len(g.dimensions['z'])
+                return None
+            run.case('C17:interpvars', (dt, pos), t_iv)
     # interpDimension with a coordinate VARIABLE that has a value in every column (coordkey=...): source / target columns
     # fixed or varying from column to column, increasing or decreasing
     rs = np.random.default_rng(seed + 17)
